@@ -1,3 +1,8 @@
 fn main() {
-    vcore::runner::main(&[])
+    vcore::runner::main(&[
+        ("C14", chk_wire::c14::run),
+        ("C15", chk_wire::c15::run),
+        ("C25", chk_wire::c25::run),
+        ("C57", chk_wire::c57::run),
+    ])
 }
